@@ -1,37 +1,59 @@
 -------------------------------- MODULE LraCache --------------------------------
-(* The least-recently-added cache behind the pattern / format-info lookups:          *)
-(* under one lock: return the cached value, else append the key, create the value,     *)
-(* evict oldest keys while over the size.  Every lookup returns the value of its key.   *)
+(* The least-recently-added cache behind the pattern / format-info lookups            *)
+(* (utility/_cache.py: _Cache.get_or_add), one step per statement group:                *)
+(*     lock; if the key is cached: return its value                                      *)
+(*     queue the key; create and store the value; evict the oldest queued keys while      *)
+(*     over the size; return the value stored for the key; unlock                          *)
+(* FastPath = FALSE is the code: the cached test is made under the lock.                    *)
+(* FastPath = TRUE is the tempting variant that tests "cached?" before taking the lock       *)
+(* (and then queues the key without testing again): a reader can pass the test and find the    *)
+(* entry evicted, and two first lookups of one key queue it twice, so that the stale duplicate   *)
+(* later evicts a live entry - TLC shows both.                                                   *)
 EXTENDS Integers, Sequences, FiniteSets
-CONSTANTS Threads, Keys, Size, NOps
-VARIABLES dict, order, lock, pc, k, res, ops, fresh, log
-vars == <<dict, order, lock, pc, k, res, ops, fresh, log>>
+CONSTANTS Threads, Keys, Size, NOps, FastPath
+VARIABLES dict, order, lock, pc, k, ops, fresh, log, prog, sched
+vars == <<dict, order, lock, pc, k, ops, fresh, log, prog, sched>>
 None == 0
 Init == /\ dict = [x \in Keys |-> None] /\ order = <<>> /\ lock = None /\ pc = [t \in Threads |-> "idle"]
-        /\ k = [t \in Threads |-> CHOOSE x \in Keys : TRUE] /\ res = [t \in Threads |-> None] /\ ops = [t \in Threads |-> 0]
-        /\ fresh = 1 /\ log = <<>>
+        /\ k = [t \in Threads |-> CHOOSE x \in Keys : TRUE] /\ ops = [t \in Threads |-> 0]
+        /\ fresh = 1 /\ log = <<>> /\ prog = [t \in Threads |-> <<>>] /\ sched = <<>>
 Cached == {x \in Keys : dict[x] # None}
-Call(t) == /\ pc[t] = "idle" /\ ops[t] < NOps /\ lock = None
-           /\ \E x \in Keys : k' = [k EXCEPT ![t] = x]
-           /\ lock' = t /\ pc' = [pc EXCEPT ![t] = "look"]
-           /\ UNCHANGED <<dict, order, res, ops, fresh, log>>
+Step(t) == sched' = Append(sched, t)
+Call(t) == /\ pc[t] = "idle" /\ ops[t] < NOps
+           /\ \E x \in Keys : k' = [k EXCEPT ![t] = x] /\ prog' = [prog EXCEPT ![t] = Append(@, x)]
+           /\ pc' = [pc EXCEPT ![t] = IF FastPath THEN "fast" ELSE "acquire"]
+           /\ UNCHANGED <<dict, order, lock, ops, fresh, log>> /\ Step(t)
+\* (variant only) the unlocked test, and the unlocked read that follows it when the test passed
+FastTest(t) == /\ pc[t] = "fast" /\ pc' = [pc EXCEPT ![t] = IF dict[k[t]] # None THEN "fastread" ELSE "acquire"]
+               /\ UNCHANGED <<dict, order, lock, k, ops, fresh, log, prog>> /\ Step(t)
+FastRead(t) == /\ pc[t] = "fastread" /\ log' = Append(log, <<k[t], dict[k[t]]>>)         \* None = the entry is gone: KeyError
+               /\ pc' = [pc EXCEPT ![t] = "idle"] /\ ops' = [ops EXCEPT ![t] = @ + 1]
+               /\ UNCHANGED <<dict, order, lock, k, fresh, prog>> /\ Step(t)
+Acquire(t) == /\ pc[t] = "acquire" /\ lock = None /\ lock' = t /\ pc' = [pc EXCEPT ![t] = "look"]
+              /\ UNCHANGED <<dict, order, k, ops, fresh, log, prog>> /\ Step(t)
 Look(t) == /\ pc[t] = "look"
-           /\ IF dict[k[t]] # None
-              THEN res' = [res EXCEPT ![t] = dict[k[t]]] /\ pc' = [pc EXCEPT ![t] = "ret"] /\ UNCHANGED <<dict, order, fresh>>
-              ELSE /\ order' = Append(order, k[t]) /\ dict' = [dict EXCEPT ![k[t]] = fresh] /\ fresh' = fresh + 1
-                   /\ res' = [res EXCEPT ![t] = fresh] /\ pc' = [pc EXCEPT ![t] = "evict"]
-           /\ UNCHANGED <<lock, k, ops, log>>
+           /\ IF ~FastPath /\ dict[k[t]] # None
+              THEN pc' = [pc EXCEPT ![t] = "ret"] /\ UNCHANGED <<dict, order, fresh>>
+              ELSE /\ order' = Append(order, k[t])
+                   /\ IF dict[k[t]] = None THEN dict' = [dict EXCEPT ![k[t]] = fresh] /\ fresh' = fresh + 1 ELSE UNCHANGED <<dict, fresh>>
+                   /\ pc' = [pc EXCEPT ![t] = "evict"]
+           /\ UNCHANGED <<lock, k, ops, log, prog>> /\ Step(t)
 Evict(t) == /\ pc[t] = "evict"
             /\ IF Cardinality(Cached) > Size
                THEN /\ order' = Tail(order) /\ dict' = [dict EXCEPT ![Head(order)] = None] /\ pc' = pc
                ELSE /\ UNCHANGED <<order, dict>> /\ pc' = [pc EXCEPT ![t] = "ret"]
-            /\ UNCHANGED <<lock, k, res, ops, fresh, log>>
+            /\ UNCHANGED <<lock, k, ops, fresh, log, prog>> /\ Step(t)
+\* the value returned is whatever is stored for the key now (None = it is gone: KeyError)
 Return(t) == /\ pc[t] = "ret" /\ lock' = None /\ pc' = [pc EXCEPT ![t] = "idle"] /\ ops' = [ops EXCEPT ![t] = ops[t] + 1]
-             /\ log' = Append(log, <<k[t], res[t], dict[k[t]]>>)
-             /\ UNCHANGED <<dict, order, k, res, fresh>>
-Next == \E t \in Threads : Call(t) \/ Look(t) \/ Evict(t) \/ Return(t)
+             /\ log' = Append(log, <<k[t], dict[k[t]]>>)
+             /\ UNCHANGED <<dict, order, k, fresh, prog>> /\ Step(t)
+Next == \E t \in Threads : Call(t) \/ FastTest(t) \/ FastRead(t) \/ Acquire(t) \/ Look(t) \/ Evict(t) \/ Return(t)
 Spec == Init /\ [][Next]_vars
 BoundedSize == (lock = None) => Cardinality(Cached) <= Size
-\* the value returned is the one cached for that key at the moment of return (the just-added key is never evicted)
-ReturnsCachedValue == \A i \in 1..Len(log) : log[i][2] = log[i][3] /\ log[i][2] # None
+\* every lookup returns a value (the just-added key is never evicted, a tested entry is still there when read)
+ReturnsCachedValue == \A i \in 1..Len(log) : log[i][2] # None
+\* the eviction queue is exactly the cached keys, oldest first, each once
+QueueMatchesDict == (lock = None) => (Len(order) = Cardinality(Cached) /\ \A i \in 1..Len(order) : dict[order[i]] # None)
+\* replay bookkeeping, hidden from the state graph of the exhaustive runs
+View == <<dict, order, lock, pc, k, ops, fresh, log>>
 =============================================================================
